@@ -206,7 +206,13 @@ static mut CLASH_CALLS: u32 = 0;
 fn stub_already_exists(_this: &Node, nodes: &[Node]) -> bool {
     unsafe {
         CLASH_CALLS += 1;
-        nodes.len() == 1 && nodes[0].address().port() == CLASH_PORT
+        let mut hit = false;
+        let mut i = 0usize;
+        while i < nodes.len() && i < 3 {
+            hit = hit || nodes[i].address().port() == CLASH_PORT;
+            i += 1;
+        }
+        hit
     }
 }
 
@@ -216,18 +222,19 @@ fn stub_already_exists(_this: &Node, nodes: &[Node]) -> bool {
 /// ordered insertion a case split over moved buckets: 10 GB.)
 fn table_add_case(b0: u8, b1: u8) -> (bool, bool, u16) {
     let mut t = RoutingTable::new(idb(0, 0, 0));
-    // A (port 7001) in bucket 160, B (port 7002) in bucket 159. The buckets' Vec<Node> buffers live
+    // A (port 7001) and C (port 7003) in bucket 160, B (port 7002) in bucket 159. The buckets' Vec<Node> buffers live
     // on the STACK (Vec::from_raw_parts over local arrays, never freed: the table is forgotten): CBMC
     // folds `ptr == end` for stack slices but not for heap ones, where every loop over the bucket
     // ran to the unwinding bound and the obligation exhausted 28 GB.
     let mut slab_a: [core::mem::MaybeUninit<Node>; 2] = [core::mem::MaybeUninit::uninit(), core::mem::MaybeUninit::uninit()];
     let mut slab_b: [core::mem::MaybeUninit<Node>; 2] = [core::mem::MaybeUninit::uninit(), core::mem::MaybeUninit::uninit()];
     slab_a[0].write(node_aged(idb(0x80, 1, 0), addr(2, 7001), 1_000));
+    slab_a[1].write(node_aged(idb(0x80, 0, 1), addr(9, 7003), 1_000)); // C: a bucket-mate of A
     slab_b[0].write(node_aged(idb(0x40, 1, 0), addr(5, 7002), 1_000));
-    t.buckets.insert(160, KBucket { nodes: unsafe { Vec::from_raw_parts(slab_a.as_mut_ptr() as *mut Node, 1, 2) } });
+    t.buckets.insert(160, KBucket { nodes: unsafe { Vec::from_raw_parts(slab_a.as_mut_ptr() as *mut Node, 2, 2) } });
     t.buckets.insert(159, KBucket { nodes: unsafe { Vec::from_raw_parts(slab_b.as_mut_ptr() as *mut Node, 1, 2) } });
     let clash_port: u16 = kani::any();
-    kani::assume(clash_port == 0 || clash_port == 7001 || clash_port == 7002);
+    kani::assume(clash_port == 0 || clash_port == 7001 || clash_port == 7002 || clash_port == 7003);
     let verdict: bool = kani::any();
     unsafe {
         BADD_VERDICT = verdict;
@@ -241,7 +248,7 @@ fn table_add_case(b0: u8, b1: u8) -> (bool, bool, u16) {
     let is_b = b0 == 0x40 && b1 == 1;
     // the per-IP rule is consulted for every OTHER entry: a clash with the node's own existing
     // entry does not count (that entry is refreshed or refused by its bucket)
-    let clash = (clash_port == 7001 && !is_a) || (clash_port == 7002 && !is_b);
+    let clash = (clash_port == 7001 && !is_a) || (clash_port == 7002 && !is_b) || clash_port == 7003;
     let d = t.id.distance(&id);
     let r = t.add(node);
     let calls = unsafe { BADD_CALLS };
@@ -278,7 +285,8 @@ table_add_harness!(c12_table_add_refuses_its_own_id, 0, 0, |own, _clash, _port| 
 });
 table_add_harness!(c12_table_add_of_a_known_node_reaches_its_bucket, 0x80, 1, |_own, clash, port| {
     kani::cover!(!clash && port == 7001, "a known node is not blocked by its own entry and reaches its bucket's refresh rule");
-    kani::cover!(clash && port == 7002, "but is blocked by a clash with another entry");
+    kani::cover!(clash && port == 7002, "but is blocked by a clash with an entry of another bucket");
+    kani::cover!(clash && port == 7003, "and by a clash with a bucket-mate");
 });
 table_add_harness!(c12_table_add_of_a_stranger_into_an_existing_bucket, 0x80, 0, |_own, clash, port| {
     kani::cover!(clash && port == 7001);
